@@ -121,10 +121,10 @@ type Val struct {
 
 // genProfile tunes value sizes.
 type genProfile struct {
-	MaxStr    int  // typical upper bound of string/blob payloads
-	BigChance int  // 1/BigChance of a large payload (0 = never)
-	BigMax    int  // upper bound of a large payload
-	ZeroTSPct int  // percentage of zero timestamps among timestamp values
+	MaxStr    int // typical upper bound of string/blob payloads
+	BigChance int // 1/BigChance of a large payload (0 = never)
+	BigMax    int // upper bound of a large payload
+	ZeroTSPct int // percentage of zero timestamps among timestamp values
 	Kinds     []colKind
 	AllowJSON bool
 	JumboLeft *int // remaining jumbo values to generate in this history
